@@ -60,6 +60,9 @@ Bases == [
   p8x   |-> Mk("point", Meta1, Labels1, Mat0, "argon", 87300000, TRUE,
                <<RowX(5, 110, 0, 1250, "a"), RowX(10, 215, 0, 1175, "b"), RowX(25, 330, 0, 1100, "c"), RowX(50, 445, 0, 1025, "d"),
                  RowX(90, 560, 0, 950, "e"), RowX(60, 520, 1, 975, "f"), RowX(30, 430, 1, 1050, "g"), RowX(12, 300, 1, 1150, "h")>>, NoModel),
+  \* zeros in pressure, loading and a supplementary column (a point at vacuum, a baseline-corrected value)
+  p4z   |-> Mk("point", NoMeta, Labels0, Mat0, "nitrogen", 77355000, TRUE,
+               <<RowX(0, 0, 0, 0, "a"), RowX(50, 110, 0, 500, "b"), RowX(100, 200, 0, 450, "c"), RowX(60, 150, 1, 0, "d")>>, NoModel),
   mHenry |-> Mk("model", NoMeta, Labels0, Mat0, "nitrogen", 77355000, FALSE, <<>>,
                [name |-> "Henry", branch |-> "ads", params |-> [K |-> Fx(250)], prange |-> <<Fx(100), Fx(400)>>, lrange |-> <<Fx(200), Fx(1000)>>, rmse |-> Fx(3)]),
   mLangmuir |-> Mk("model", Meta1, Labels0, Mat0, "nitrogen", 77355000, FALSE, <<>>,
@@ -113,12 +116,18 @@ LabelEdits(l) ==        \* every label, changed to another value that keeps the 
 
 \* numeric deltas <<dq, dr>>: +-1e-7, +6e-9 change the 8-decimal value; +4e-9, +-1e-10 do not
 Deltas == {<<10, 0>>, <<-10, 0>>, <<0, 60>>, <<0, 40>>, <<0, 1>>, <<0, -1>>}
+\* around ZERO (and, in that base content, around every edited cell): values that round to zero from
+\* below (-2e-9, -4.9e-9) and from above (+2e-9), +-3e-9 (same 8-decimal value), +-2e-8 (another one)
+ZeroDeltas == {<<0, -20>>, <<0, -49>>, <<0, 20>>, <<0, 30>>, <<0, -30>>, <<2, 0>>, <<-2, 0>>}
+IsZero(v) == v = <<0, 0>>
+HasZeros(c) == \E i \in DOMAIN c.rows : IsZero(c.rows[i].p) \/ IsZero(c.rows[i].l) \/ (c.extras /\ IsZero(c.rows[i].enth))
 Cols(c) == IF c.extras THEN {"p", "l", "enth"} ELSE {"p", "l"}
 SetCol(r, col, v) == CASE col = "p" -> [r EXCEPT !.p = v] [] col = "l" -> [r EXCEPT !.l = v] [] col = "enth" -> [r EXCEPT !.enth = v]
 GetCol(r, col) == CASE col = "p" -> r.p [] col = "l" -> r.l [] col = "enth" -> r.enth
 SwapRows(rows, i, j) == [k \in DOMAIN rows |-> IF k = i THEN rows[j] ELSE IF k = j THEN rows[i] ELSE rows[k]]
 DropRow(rows, i) == [k \in 1..(Len(rows) - 1) |-> IF k < i THEN rows[k] ELSE rows[k + 1]]
 
+ZeroCells(c, col) == {k \in {1, Len(c.rows)} : IsZero(GetCol(c.rows[k], col))}
 None == [kind |-> "none", a |-> "", i |-> 0, d |-> <<0, 0>>]
 MutsOf(c) ==
    {None}
@@ -131,6 +140,9 @@ MutsOf(c) ==
          [kind |-> "adsorbate", a |-> "", i |-> 0, d |-> <<0, 0>>], [kind |-> "temperature", a |-> "", i |-> 0, d |-> <<0, 0>>]}
    \cup (IF c.cls = "point" THEN
            {[kind |-> "datum", a |-> col, i |-> i, d |-> d] : col \in Cols(c), i \in {1, Len(c.rows)}, d \in Deltas}
+           \cup UNION {{[kind |-> "datum", a |-> col, i |-> i, d |-> d] : i \in ZeroCells(c, col), d \in ZeroDeltas} : col \in Cols(c)}
+           \* the same zero written as the float -0.0 (content unchanged)
+           \cup UNION {{[kind |-> "zero written as -0.0", a |-> col, i |-> i, d |-> <<0, 0>>] : i \in ZeroCells(c, col)} : col \in Cols(c)}
            \cup {[kind |-> "branch mark", a |-> "", i |-> i, d |-> <<0, 0>>] : i \in {1, Len(c.rows)}}
            \cup {[kind |-> "row removed", a |-> "", i |-> i, d |-> <<0, 0>>] : i \in {Len(c.rows)} \ {1}}
            \cup {[kind |-> "rows swapped", a |-> "", i |-> i, d |-> <<0, 0>>] : i \in {1} \ {Len(c.rows)}}
@@ -158,6 +170,7 @@ Apply(c, m) ==
      [] m.kind = "adsorbate" -> [c EXCEPT !.adsorbate = IF c.adsorbate = "nitrogen" THEN "argon" ELSE "nitrogen"]
      [] m.kind = "temperature" -> [c EXCEPT !.temp = c.temp + 1000000]
      [] m.kind = "datum" -> [c EXCEPT !.rows[m.i] = SetCol(c.rows[m.i], m.a, AddFx(GetCol(c.rows[m.i], m.a), m.d[1], m.d[2]))]
+     [] m.kind = "zero written as -0.0" -> c
      [] m.kind = "branch mark" -> [c EXCEPT !.rows[m.i].b = 1 - c.rows[m.i].b]
      [] m.kind = "row removed" -> [c EXCEPT !.rows = DropRow(c.rows, m.i)]
      [] m.kind = "rows swapped" -> [c EXCEPT !.rows = SwapRows(c.rows, 1, Len(c.rows))]
